@@ -10,7 +10,7 @@ import sys
 import tempfile
 import time
 
-VERIF = "/verif"
+VERIF = os.environ.get("VERIF_ROOT") or os.path.dirname(os.path.dirname(os.path.abspath(__file__)))  # /verif, or a snapshot of it (vp run)
 REPO = "/repo"
 MOD = "github.com/enbility/ship-go"
 ENGINE = os.path.join(VERIF, "bin", "verif-engine")
